@@ -50,7 +50,10 @@ def concretize(ex, v, model, heap, depth=0):
         return r.as_long() if z3.is_int_value(r) else str(r)
     if isinstance(v, VStr):
         r = ev(v.t)
-        return r.as_string() if z3.is_string_value(r) else str(r)
+        if z3.is_string_value(r):
+            import re as _re
+            return _re.sub(r'\\u\{([0-9a-fA-F]+)\}', lambda m: chr(int(m.group(1), 16)), r.as_string())
+        return str(r)
     if isinstance(v, VNone):
         return None
     if isinstance(v, VFloat):
